@@ -21,13 +21,13 @@ RULE = ('full product F kind x n x Q kind x dt; for each point all equal splitti
         'and all ordered compositions from the part alphabet {1,2,5}/8 dt with <= P parts. Non-trivial = '
         'F non-zero and Q non-zero and dt > 0; distinct = distinct tuples.')
 ASSUMPTIONS = ['reference: scaling-and-squaring Taylor exponential in longdouble, composite 10-point '
-               'Gauss-Legendre (not Van Loan)', '||F|| dt capped at 12 (cap reported)',
+               'Gauss-Legendre (not Van Loan)', '||F|| dt capped at 64 (cap reported); sharpness follows the measured conditioning kappa',
                'tolerance c eps n kappa (||Qd|| + ||Q|| dt), kappa = measured conditioning: max of max_s ||e^{Fs}|| ||e^{-Fs}|| and that of the Van Loan block matrix (the documented method)']
 F_KINDS = ['zero', 'nilpotent', 'stable_diag', 'unstable_diag', 'skew', 'mixed_dense', 'ins15', 'ins21']
 NS = [1, 2, 3, 9, 15, 24]
 Q_KINDS = ['zero', 'diag', 'rank1', 'dense']
 DTS = [0.0, 1e-3, 0.1, 1.0, 10.0]
-CAP = 12.0
+CAP = 64.0
 
 
 def gen_cases(tier, seed):
@@ -43,6 +43,9 @@ def gen_cases(tier, seed):
         if fk == 'skew' and n == 1:
             continue
         cases.append(dict(F=fk, n=n, Q=qk, dt=dt, op=0, parts=4 if tier == 'quick' else 6))
+        if fk in ('zero', 'nilpotent') and n in (2, 3, 9):
+            # argument form: integer-typed F (as the library's own nilpotent test passes it)
+            cases.append(dict(F=fk, n=n, Q=qk, dt=dt, op=0, parts=4 if tier == 'quick' else 6, int_F=True))
     return cases
 
 
@@ -119,6 +122,10 @@ def build(case):
         Q = (Q + Q.T) / 2
     if fk.startswith('ins') and qk in ('diag', 'rank1'):
         Q = Q * 1e-6
+    if qk in ('diag', 'dense', 'rank1') and not fk.startswith('ins'):
+        Q = Q * 0.25                      # non-integer noise densities
+    if case.get('int_F'):
+        F = F.astype(int)
     dt = case['dt']
     nrm = np.abs(F).sum(axis=1).max()
     capped = False
